@@ -121,8 +121,9 @@ def simplify(t, memo=None):
         memo = {}
     if not isinstance(t, tuple) or not t:
         return t
-    if t in memo:
-        return memo[t]
+    hit = memo.get(id(t))
+    if hit is not None and hit[0] is t:
+        return hit[1]
     k = t[0]
     r = None
     if k == "switch":
@@ -249,7 +250,9 @@ def simplify(t, memo=None):
             r = ("call", t[1], (x,))
     else:
         r = tuple(simplify(x, memo) if isinstance(x, tuple) else x for x in t)
-    memo[t] = r
+        if all(a is b for a, b in zip(r, t)):
+            r = t
+    memo[id(t)] = (t, r)
     return r
 
 
